@@ -35,9 +35,14 @@ class Codec:
         self.enc_tab = {c: b for b, c in self.dec_tab.items()}
 
     # element-level terms
-    def dec_elem(self, e):
+    def dec_elem(self, e, E=None):
         """(decodable Bool, code point term) of byte element e"""
         c = conc_int(e)
+        if self.kind == 'abstract' and E is not None and z3.is_app(e) and e.decl().name() == 'ENC_' + self.name:
+            x = e.arg(0)
+            # DEC(ENC(x)) = x for encodable x: rewrite instead of leaving it to the solver
+            if E.decide(self.ENCODABLE(x)) is True:
+                return z3.BoolVal(True), x
         if self.kind == 'latin1':
             return z3.BoolVal(True), e
         if self.kind == 'table':
@@ -185,7 +190,7 @@ def m_decode(E, a, kw):
         oks, outs = [], []
         for k in range(c):
             e = b.at(z3.IntVal(k))
-            ok, d = cd.dec_elem(e)
+            ok, d = cd.dec_elem(e, E)
             cd.dec_facts(E, e)
             oks.append(ok)
             outs.append(d)
@@ -198,7 +203,7 @@ def m_decode(E, a, kw):
     if E.branch(E.fresh_bool('decode_ok')):
         def at(i, b=b, cd=cd):
             e = b.at(i)
-            ok, d = cd.dec_elem(e)
+            ok, d = cd.dec_elem(e, E)
             E.fact(ok)
             cd.dec_facts(E, e)
             return d
@@ -244,3 +249,277 @@ def m_encode(E, a, kw):
     if not E.feasible(z3.BoolVal(True)):
         raise PathEnd()
     _raise(E, UnicodeEncodeError, 'codec cannot encode character')
+
+
+# ================================================================================================
+# dicts with symbolic keys: ordered association list, last write wins (PDSxxxx / TAGxxxx entries)
+# ================================================================================================
+class AssocDict:
+    """python dict whose keys may be symbolic strings.  entries: VSeq 'list' of VTuple(key, value) in insertion order.
+    Only what the verified code does with such dicts is supported: store, update, truthiness, (concrete-key) lookup."""
+
+    def __init__(self, entries):
+        self.entries = entries
+
+    @staticmethod
+    def from_concrete(d):
+        return AssocDict(seq_items('list', [VTuple([lift(k), v]) for k, v in d.items()]))
+
+    def truth(self, E):
+        return self.entries.n > 0
+
+    def length(self, E):
+        raise Unsupported('len() of a dict with symbolic keys (duplicates unknown)')
+
+    def set(self, E, ref, key, val):
+        E.setf(ref, 'val', AssocDict(seq_concat(self.entries, seq_items('list', [VTuple([key, val])]))))
+
+    def update(self, E, ref, other):
+        od = E.getf(other, 'val')
+        oe = AssocDict.from_concrete(od).entries if isinstance(od, dict) else od.entries
+        E.setf(ref, 'val', AssocDict(seq_concat(self.entries, oe)))
+        return NONE
+
+    def get(self, E, ref, key, strict, default):
+        """lookup by last-write-wins; supported for concrete-length entry lists"""
+        ents = E.fix_len(self.entries)
+        c = ents.clen()
+        if c is None:
+            raise Unsupported('lookup in a dict with a symbolic number of symbolic keys')
+        for k in range(c - 1, -1, -1):
+            kv = ents.at(z3.IntVal(k))
+            if E.branch(value_eq_bool(kv.items[0], key)):
+                return kv.items[1]
+        if strict:
+            _raise(E, KeyError, 'key')
+        return default
+
+    def contains(self, E, item):
+        ents = E.fix_len(self.entries)
+        c = ents.clen()
+        if c is None:
+            raise Unsupported('`in` on a dict with a symbolic number of symbolic keys')
+        alts = [value_eq_bool(ents.at(z3.IntVal(k)).items[0], item) for k in range(c)]
+        return z3.Or(*alts) if alts else z3.BoolVal(False)
+
+    def iter_keys(self, E):
+        ents = E.fix_len(self.entries)
+        c = ents.clen()
+        if c is None:
+            raise Unsupported('iteration over a dict with a symbolic number of keys')
+        return [ents.at(z3.IntVal(k)).items[0] for k in range(c)]
+
+    def items(self, E, ref):
+        ents = E.fix_len(self.entries)
+        if ents.clen() is None:
+            raise Unsupported('items() of a dict with a symbolic number of keys')
+        return E.new_cell({'__kind__': 'iter', 'items': [ents.at(z3.IntVal(k)) for k in range(ents.clen())]})
+
+    def keys(self, E, ref):
+        return E.new_cell({'__kind__': 'iter', 'items': self.iter_keys(E)})
+
+
+# ================================================================================================
+# datetime / decimal / re : opaque values with the axioms the properties need
+# ================================================================================================
+DT = z3.DeclareSort('DateTime')
+DEC = z3.DeclareSort('Decimal')
+
+
+def fmt_id(fmt):
+    cs = conc_str(fmt)
+    if cs is None:
+        raise Unsupported('symbolic date format')
+    return cs
+
+
+def strftime_len(fmt):
+    """length of strftime output for the numeric directives (all fixed width)"""
+    widths = {'y': 2, 'Y': 4, 'm': 2, 'd': 2, 'H': 2, 'M': 2, 'S': 2, 'j': 3, 'f': 6}
+    n, i = 0, 0
+    while i < len(fmt):
+        if fmt[i] == '%' and i + 1 < len(fmt):
+            if fmt[i + 1] == '%':
+                n += 1
+            elif fmt[i + 1] in widths:
+                n += widths[fmt[i + 1]]
+            else:
+                raise Unsupported('date directive %%%s has no model' % fmt[i + 1])
+            i += 2
+        else:
+            n += 1
+            i += 1
+    return n
+
+
+def strftime_seq(E, dt, fmt):
+    """format(dt, fmt): a string of fixed length whose characters are an uninterpreted function of (dt, position);
+    digits at directive positions, the literal characters elsewhere"""
+    n = strftime_len(fmt)
+    F = z3.Function('STRFTIME[%s]' % fmt, DT, z3.IntSort(), z3.IntSort())
+    lits = {}
+    pos, i = 0, 0
+    widths = {'y': 2, 'Y': 4, 'm': 2, 'd': 2, 'H': 2, 'M': 2, 'S': 2, 'j': 3, 'f': 6}
+    while i < len(fmt):
+        if fmt[i] == '%' and i + 1 < len(fmt):
+            if fmt[i + 1] == '%':
+                lits[pos] = 37
+                pos += 1
+            else:
+                pos += widths[fmt[i + 1]]
+            i += 2
+        else:
+            lits[pos] = ord(fmt[i])
+            pos += 1
+            i += 1
+    items = []
+    for k in range(n):
+        if k in lits:
+            items.append(lits[k])
+        else:
+            e = F(dt, k)
+            E.fact(z3.And(e >= 48, e <= 57))
+            items.append(e)
+    s = seq_items('str', items)
+    s.tag = ('strftime', dt, fmt)
+    E.ghost.setdefault('strftime_terms', []).append((dt, fmt, s))
+    return s
+
+
+def format_datetime(E, v, spec):
+    if spec == '':
+        return str_of_datetime(E, v)
+    return strftime_seq(E, v.t, spec)
+
+
+def str_of_datetime(E, v):
+    return strftime_seq(E, v.t, '%Y-%m-%d %H:%M:%S')
+
+
+@model('datetime.datetime.strptime')
+def m_strptime(E, a, kw):
+    s, fmt = a[0], fmt_id(a[1])
+    if not (isinstance(s, VSeq) and s.kind == 'str'):
+        _raise(E, TypeError, 'strptime() argument 1 must be str')
+    n = strftime_len(fmt)
+    P = z3.Function('STRPTIME[%s]' % fmt, z3.ArraySort(z3.IntSort(), z3.IntSort()), DT)
+    OK = z3.Function('STRPTIME_OK[%s]' % fmt, z3.ArraySort(z3.IntSort(), z3.IntSort()), z3.BoolSort())
+    from .models import reify
+    # round-trip axiom: strptime(format(dt, fmt), fmt) = dt   whenever dt is representable in fmt
+    if s.tag and s.tag[0] == 'strftime' and s.tag[2] == fmt:
+        dt = s.tag[1]
+        REP = z3.Function('REPRESENTABLE[%s]' % fmt, DT, z3.BoolSort())
+        if E.branch(REP(dt)):
+            return VOpaque('datetime', dt)
+        _raise(E, ValueError, 'time data does not match format')
+    s = E.fix_len(s)
+    arr = reify(s)
+    ok = OK(arr)
+    # round-trip axiom  REPRESENTABLE(dt) => strptime(format(dt, fmt), fmt) = dt , instantiated for every datetime that
+    # was formatted with this format on this path (the string may have travelled through encode/decode since)
+    if s.clen() is not None:
+        REP = z3.Function('REPRESENTABLE[%s]' % fmt, DT, z3.BoolSort())
+        for dt, f2, sq in E.ghost.get('strftime_terms', []):
+            if f2 == fmt and sq.clen() == s.clen():
+                same = z3.And(*[elem_eq(s.at(z3.IntVal(k)), sq.at(z3.IntVal(k))) for k in range(s.clen())])
+                E.fact(z3.Implies(z3.And(REP(dt), same), z3.And(ok, P(arr) == dt)))
+    # python's strptime accepts shorter numeric fields, so only the gross length bound is used
+    if E.branch(z3.And(ok, s.n >= 1)):
+        return VOpaque('datetime', P(arr))
+    _raise(E, ValueError, 'time data does not match format')
+
+
+@model('datetime.datetime')
+def m_datetime_cls(E, a, kw):
+    raise Unsupported('datetime construction')
+
+
+@model('datetime.datetime.fromisoformat')
+def m_fromiso(E, a, kw):
+    raise Unsupported('fromisoformat')
+
+
+@model('decimal.Decimal')
+def m_decimal(E, a, kw):
+    v = a[0]
+    if isinstance(v, VOpaque) and v.sort_name == 'decimal':
+        return v
+    if isinstance(v, VInt):
+        F = z3.Function('DECIMAL_OF_INT', z3.IntSort(), DEC)
+        return VOpaque('decimal', F(v.t))
+    if isinstance(v, VSeq) and v.kind == 'str':
+        import decimal as _d
+        from .models import reify
+        P = z3.Function('DECIMAL_PARSE', z3.ArraySort(z3.IntSort(), z3.IntSort()), DEC)
+        OK = z3.Function('DECIMAL_OK', z3.ArraySort(z3.IntSort(), z3.IntSort()), z3.BoolSort())
+        if v.tag and v.tag[0] == 'decfmt':
+            return VOpaque('decimal', v.tag[1])
+        arr = reify(v)
+        if E.branch(OK(arr)):
+            return VOpaque('decimal', P(arr))
+        _raise(E, _d.InvalidOperation, 'ConversionSyntax')
+    raise Unsupported('Decimal(%r)' % (v,))
+
+
+def format_decimal(E, v, spec):
+    """format(Decimal, '0Nf'): opaque string; Decimal(format(d,...)) = d for representable d is NOT assumed in general"""
+    F = z3.Function('DECFMT[%s]' % spec, DEC, z3.IntSort(), z3.IntSort())
+    L = z3.Function('DECFMT_LEN[%s]' % spec, DEC, z3.IntSort())
+    n = L(v.t)
+    E.fact(n >= 1)
+    s = VSeq('str', n, lambda i, v=v: F(v.t, I(i)))
+    s.tag = ('decfmt', v.t, spec)
+    return s
+
+
+@model('re.match')
+def m_re_match(E, a, kw):
+    pat, s = a[0], a[1]
+    cs = conc_str(pat)
+    if cs is None:
+        raise Unsupported('symbolic regular expression')
+    import re
+    try:
+        names = list(re.compile(cs).groupindex)
+    except re.error:
+        raise Unsupported('invalid regular expression (re.error in CPython)')
+    if E.branch(E.fresh_bool('re_matches')):
+        return E.new_cell({'__kind__': 'match', 'names': names, 'subject': s})
+    return NONE
+
+
+@method('match', 'groupdict')
+def m_groupdict(E, a, kw):
+    m = a[0]
+    d = {}
+    subj = E.getf(m, 'subject')
+    for nm in E.getf(m, 'names'):
+        # every named group is a substring of the subject (or None when it did not take part): content uninterpreted
+        if E.branch(E.fresh_bool('group_%s_matched' % nm)):
+            g = E.fresh_seq('str', 'grp_' + nm)
+            E.fact(g.n <= subj.n)
+            d[nm] = g
+        else:
+            d[nm] = NONE
+    return E.new_dict(d)
+
+
+def _abstract_rstrip(E, s):
+    out = E.fresh_seq('str', 'rstrip')
+    E.fact(out.n <= s.n)
+    return out
+
+
+@model('dateutil.parser.parse')
+def m_dateutil_parse(E, a, kw):
+    s = a[0]
+    from .models import reify
+    if isinstance(s, VSeq) and s.tag and s.tag[0] == 'strftime' and s.tag[2] == '%Y-%m-%d %H:%M:%S':
+        return VOpaque('datetime', s.tag[1])          # parse(str(dt)) = dt for second-precision datetimes (assumed)
+    s = E.fix_len(s)
+    P = z3.Function('DATEUTIL_PARSE', z3.ArraySort(z3.IntSort(), z3.IntSort()), DT)
+    OK = z3.Function('DATEUTIL_OK', z3.ArraySort(z3.IntSort(), z3.IntSort()), z3.BoolSort())
+    arr = reify(s)
+    if E.branch(OK(arr)):
+        return VOpaque('datetime', P(arr))
+    _raise(E, ValueError, 'Unknown string format')
